@@ -265,6 +265,24 @@ func checkExcerptDataPath(c *Ctx, rule string) {
 		c.Check(bad == "", rule, key, pos, fmt.Sprintf("%s ← snapshot fields %v, accessors %v (%s)", f, gotFields, want.calls, want.why),
 			"the excerpt field "+f+" "+bad+" ("+want.why+"): queries and listings are answered from the excerpt")
 	}
+	// the metadata of the create operation is complete only once the snapshot was compiled (set-metadata operations
+	// attach their values to their target when they are applied): it is read after Snapshot()
+	{
+		var snapCall, metaCall ssa.Instruction
+		for _, cl := range Calls(fn) {
+			if strings.HasSuffix(cl.Name, ".Snapshot") && snapCall == nil {
+				snapCall = cl.Instr
+			}
+			if strings.HasSuffix(cl.Name, ".AllMetadata") {
+				metaCall = cl.Instr
+			}
+		}
+		if metaCall != nil {
+			c.Sites++
+			c.Check(snapCall != nil && instrDominates(snapCall, metaCall), rule, "NewBugExcerpt:metadata-after-compile", w.InstrPos(metaCall), "AllMetadata() is read after Snapshot()",
+				"the create operation's metadata is copied before the snapshot is compiled: values attached by set-metadata operations (how bridges record the tracker ids) are applied to it during compilation, so an excerpt built from a freshly read bug (rebuild, pull) lacks them and metadata: queries miss the bug")
+		}
+	}
 	c.Check(n >= 10, rule, "NewBugExcerpt:fields-covered", pos, fmt.Sprintf("%d excerpt fields examined", n), fmt.Sprintf("only %d excerpt fields found (at least 10 expected)", n))
 
 	// ---- (A') NewIdentityExcerpt: field F ← accessor F()
@@ -718,4 +736,57 @@ func checkLoadAllOrRebuild(c *Ctx, rule string) {
 		}
 	}
 	c.Check(nOpen >= 1, rule, "RepoCache.load:called-by-the-opener", pos, fmt.Sprintf("%d call site(s)", nOpen), "no call of RepoCache.load found")
+}
+
+// R11.11: whoever consumes the results of the cache's MergeAll reads them to the end. The channels are
+// unbuffered and SubCache.MergeAll rewrites the cache file only after its last result was taken: a consumer
+// that stops at some result leaves the producers blocked for ever, and the entities merged so far have their
+// refs moved (and their in-memory excerpt refreshed) while the file on disk keeps the old excerpts.
+func checkMergeResultsDrained(c *Ctx, rule string) {
+	w := c.W
+	c.Doc(rule, "every loop that ranges over the channel returned by RepoCache.MergeAll / SubCache.MergeAll / cacheMgmt.MergeAll is left by exhaustion only (no return or break inside the loop)")
+	isCacheMergeAll := func(n string) bool {
+		return n == "cache.RepoCache.MergeAll" || n == "cache.SubCache.MergeAll" || n == "cache.cacheMgmt.MergeAll" || n == "cache.RepoCacheBug.MergeAll" || n == "cache.RepoCacheIdentity.MergeAll"
+	}
+	n := 0
+	for _, f := range w.ModFns {
+		if isInstance(f) || w.isTestHelper(f) || len(f.Blocks) == 0 {
+			continue
+		}
+		for _, h := range f.Blocks {
+			if !isLoopHeader(h) {
+				continue
+			}
+			var src *ssa.Call
+			for _, ins := range h.Instrs {
+				if u, ok := ins.(*ssa.UnOp); ok && u.Op == token.ARROW && u.CommaOk {
+					for _, o := range origins(u.X) {
+						if o.Kind == "call" && isCacheMergeAll(o.Name) {
+							src, _ = o.Val.(*ssa.Call)
+						}
+					}
+				}
+			}
+			if src == nil {
+				continue
+			}
+			n++
+			c.Sites++
+			c.seeFn(funcName(f))
+			bad := ""
+			for _, b := range f.Blocks {
+				if b == h || !inLoop(b, h) {
+					continue
+				}
+				for _, s := range b.Succs {
+					if !inLoop(s, h) {
+						bad = w.InstrPos(firstPosInstr(s))
+					}
+				}
+			}
+			c.Check(bad == "", rule, funcName(f)+":drains-merge-results", w.InstrPos(firstPosInstr(h)), "the results are read to the end",
+				"the loop over the merge results is left at "+bad+" before the channel is exhausted: the merging goroutines block on their next send, SubCache.MergeAll never reaches its write of the cache file, and the next session loads excerpts that predate the refs already moved by this pull")
+		}
+	}
+	c.Check(n >= 3, rule, "expected:merge-result-consumers", "module", fmt.Sprintf("%d consumers of the cache's merge results", n), fmt.Sprintf("only %d consumers found (reference 4)", n))
 }
